@@ -5,10 +5,16 @@ transitions, time in ms in the state, `tick d` advances the clock); helper lemma
 
 `Variant` selects the code variant: `{}` (all flags false) is the code as it is after the `fix:` commits;
 `cpmFrees := true` is the repaired variant of known finding C18-KF1; `hbAny`, `tupleFails`, `joinHidesLeave`,
-`createDuringNotify` are the behaviours before the fixes (only used in `_witness` theorems).
+`createDuringNotify`, `cancelHidesLeave` are the behaviours before the fixes (only used in `_witness` theorems).
 Every theorem quantifies over all reachable states / all event sequences; nothing is bounded.
+
+Atomicity: the model makes every public method ONE transition.  That rests on the regenerated structural facts of
+`Generated/VruLocks.lean` (harness/gen_vru.py, `ast` pass over vru_clustering.py), discharged by `decide` in
+`public_methods_atomic` below: a public method that loses its `with self._lock:` re-opens that obligation.
 -/
 import FlexModel.Vru.ClusterLemmas
+import Generated.VruLocks
+import FlexModel.Vru.ClusterAtomic
 
 namespace Props.C18
 open FlexModel.Vru Generated.VamConstants
@@ -38,6 +44,19 @@ below are about.  A changed constant re-opens this obligation. -/
 theorem table15_values :
     timeClusterJoinNotification = 3000 ∧ timeClusterLeaveNotification = 1000 ∧ timeClusterBreakupWarning = 3000 ∧
     timeClusterContinuity = 2000 ∧ timeClusterJoinSuccess = 500 := by decide
+
+/-- LOCK DISCIPLINE (regenerated from the source on every run): every public method of `VBSClusteringManager` that
+touches the manager's state has its whole body inside one `with self._lock:` block; no private helper ("must be called
+with the lock held") is called by a public method outside such a block; the lock is re-entrant (public methods call
+public methods: `update → confirm_join_failed`, `trigger_leave_cluster → cancel_join`); and the public mutators are
+exactly the events of the model (`Op` minus the clock step), so no state-changing entry point is unmodelled. -/
+theorem public_methods_atomic :
+    (∀ m ∈ Generated.VruLocks.methods, m.isPublic = true → m.touchesState = true → m.underLock = true) ∧
+    Generated.VruLocks.unlockedHelperCalls = [] ∧ Generated.VruLocks.lockReentrant = true ∧
+    ((Generated.VruLocks.methods.filter (fun m => m.isPublic && m.mutates)).map (·.name) =
+      ["set_vru_role_on", "set_vru_role_off", "try_create_cluster", "initiate_join", "cancel_join",
+       "confirm_join_failed", "trigger_leave_cluster", "trigger_breakup_cluster", "update", "on_received_vam"]) := by
+  decide
 
 /-! ## Consistency of the state -/
 
@@ -93,7 +112,8 @@ theorem passive_iff {var : Variant} {s : St} (h : Reachable var s) :
   · have := hi.otherMem hp
     simp [this.1] at hm
 
-/-- individual VAM transmission is suppressed only while passive or idle (every state, reachable or not) -/
+/-- DEFINITION CHECK (not a claimed result: it unfolds `shouldTransmit`, the transcription of `should_transmit_vam`):
+transmission is suppressed only while passive or idle -/
 theorem suppressed_only_passive_idle (s : St) (h : shouldTransmit s = false) :
     s.state = .passive ∨ s.state = .idle := by
   unfold shouldTransmit at h
@@ -104,6 +124,24 @@ theorem passive_suppressed {var : Variant} {s : St} (h : Reachable var s) (hp : 
     shouldTransmit s = false := by
   have := (reachable_inv h).passiveNoLeave hp
   simp [shouldTransmit, hp, this]
+
+/-- on the emission function (what the station puts on the air): a reachable station emits a VAM exactly when it is
+stand-alone or leader; the emitted VAM carries the information container exactly for a leader -/
+theorem emits_iff_active {var : Variant} {s : St} (h : Reachable var s) (sid : Nat) (x y : Int) :
+    ((emitVam var sid x y s).isSome = true ↔ (s.state = .standalone ∨ s.state = .leader)) ∧
+    ∀ v, emitVam var sid x y s = some v → (v.info.isSome = true ↔ s.state = .leader) := by
+  have hps := fun hp => passive_suppressed h hp
+  constructor
+  · unfold emitVam
+    cases hs : s.state <;> simp_all [shouldTransmit]
+  · intro v hv
+    unfold emitVam at hv
+    split at hv
+    · simp only [Option.some.injEq] at hv
+      subst hv
+      simp only [Option.isSome_map]
+      exact ((leader_iff_info_container h).1).symm
+    · simp at hv
 
 /-- none of the `assert … is not None` statements of `update()` can fire -/
 theorem no_assertion {var : Variant} {s : St} (h : Reachable var s) : s.err = false := (reachable_inv h).noErr
@@ -120,8 +158,8 @@ theorem leader_lost {var : Variant} {s : St} {t : Nat} (d : Nat) (hp : s.state =
   exact leader_lost_update (s := { s with now := s.now + d }) hp hl hs
 
 /-- … and not earlier: before timeClusterContinuity has elapsed an update keeps the membership -/
-theorem leader_not_lost_early {s : St} {t : Nat} (hp : s.state = .passive) (hl : s.last = some t)
-    (hs : s.now - t < timeClusterContinuity) : (update s).state = .passive := by
+theorem leader_not_lost_early {var : Variant} {s : St} {t : Nat} (hp : s.state = .passive) (hl : s.last = some t)
+    (hs : s.now - t < timeClusterContinuity) : (update var s).state = .passive := by
   unfold update
   have he : (expire s).state = .passive := by simp [expire, hp]
   simp only [he]
@@ -131,7 +169,9 @@ theorem leader_not_lost_early {s : St} {t : Nat} (hp : s.state = .passive) (hl :
   simp only [h1, h2, if_false]
   rw [(updLeaveNotify_fields (expire s)).1]; exact he
 
-/-- Break-up announced by the leader (repaired variant `cpmFrees := true`, every reason): the member is stand-alone
+/-- Break-up announced by the leader, EVERY reason — holds for the REPAIRED VARIANT `cpmFrees := true` of known finding
+C18-KF1 only, which is NOT the code in the repository (there the clause is `breakup_frees_partial`; what the code
+guarantees for the CPM reason is the bounded release of `passive_only_while_leader_heard`): the member is stand-alone
 and transmitting right after the reception, hence by the next update -/
 theorem breakup_frees {var : Variant} (hc : var.cpmFrees = true) (ht : var.tupleFails = false)
     {s : St} {v : Vam} {o : OpC} {r : Nat} (d : Nat)
@@ -141,7 +181,7 @@ theorem breakup_frees {var : Variant} (hc : var.cpmFrees = true) (ht : var.tuple
   have hab : recvAborted var v = false := by simp [recvAborted, ht]
   obtain ⟨h1, _⟩ := recv_breakup_frees (var := var) hab hp hl ho hb (Or.inr hc)
   simp only [run, List.foldl_cons, List.foldl_nil, step]
-  have h2 := update_state_of_standalone (s := { recv var s v with now := (recv var s v).now + d }) h1
+  have h2 := update_state_of_standalone (var := var) (s := { recv var s v with now := (recv var s v).now + d }) h1
   exact ⟨h2, by simp [shouldTransmit, h2]⟩
 
 /-- The code as it is (`cpmFrees := false`): the same outside the known region
@@ -155,7 +195,7 @@ theorem breakup_frees_partial {var : Variant} (ht : var.tupleFails = false)
   have hab : recvAborted var v = false := by simp [recvAborted, ht]
   obtain ⟨h1, _⟩ := recv_breakup_frees (var := var) hab hp hl ho hb (Or.inl hr)
   simp only [run, List.foldl_cons, List.foldl_nil, step]
-  have h2 := update_state_of_standalone (s := { recv var s v with now := (recv var s v).now + d }) h1
+  have h2 := update_state_of_standalone (var := var) (s := { recv var s v with now := (recv var s v).now + d }) h1
   exact ⟨h2, by simp [shouldTransmit, h2]⟩
 
 /-- a member of cluster 9 led by station 21, reached through the public API -/
@@ -192,49 +232,72 @@ theorem heartbeat_only_cluster_vam {var : Variant} (hv : var.hbAny = false) {s :
       (step var s op).1.joined = some (i.cid.getD 0) ∧ (step var s op).1.last = some (step var s op).1.now) :=
   step_passive_origin hv op hp'
 
-/-- events during which no cluster VAM is heard -/
-def Quiet : Op → Prop
-  | .recv v => v.info = none
-  | _ => True
-
-theorem step_quiet {var : Variant} (hv : var.hbAny = false) {s : St} {op : Op} (hq : Quiet op)
-    (hp' : (step var s op).1.state = .passive) : s.state = .passive ∧ (step var s op).1.last = s.last := by
-  rcases step_passive_origin hv op hp' with h | ⟨v, i, rfl, hi, _⟩
-  · exact ⟨h.1, h.2.2.2⟩
-  · simp only [Quiet] at hq; rw [hq] at hi; cases hi
-
-theorem run_quiet {var : Variant} (hv : var.hbAny = false) (ops : List Op) :
-    ∀ s : St, (∀ op ∈ ops, Quiet op) → (run var s ops).state = .passive →
-      s.state = .passive ∧ (run var s ops).last = s.last := by
-  induction ops with
-  | nil => intro s _ h; exact ⟨h, rfl⟩
-  | cons op rest ih =>
-    intro s hq hp'
-    simp only [run, List.foldl_cons] at hp' ⊢
-    obtain ⟨h1, h2⟩ := ih (step var s op).1 (fun o ho => hq o (by simp [ho])) hp'
-    obtain ⟨h3, h4⟩ := step_quiet hv (hq op (by simp)) h1
-    exact ⟨h3, by rw [← h4]; exact h2⟩
-
-/-- NOT SILENCED FOR GOOD: from any passive state, after ANY sequence of events during which no cluster VAM is heard
-(commands, updates, clock steps, individual VAMs of anybody — the ex-leader included — join/leave/break-up
-notices without information container), an update at least timeClusterContinuity after the last cluster VAM
-leaves the station non-passive, and transmitting unless the role was switched off. -/
-theorem not_silenced_for_good {var : Variant} (hv : var.hbAny = false) {s : St} {t : Nat}
-    (_hp : s.state = .passive) (hl : s.last = some t) (ops : List Op) (hq : ∀ op ∈ ops, Quiet op)
+/-- NOT SILENCED FOR GOOD (member's view).  A passive member of cluster `c` led by station `l` whose leader-lost timer
+shows `t`: after ANY sequence of events that contains no cluster VAM of cluster `c` sent by `l` — cluster VAMs of other
+clusters, of a cluster with the same id advertised by another station, cluster VAMs of `l` for a NEW cluster, individual
+VAMs of anybody, commands, updates and clock steps are all allowed — an update at least timeClusterContinuity after
+`t` leaves the station no longer a silent member of that cluster: it is not passive, or it is passive in a DIFFERENT
+membership (which it can only have acquired by a fresh admission, see `passive_only_while_leader_heard`);
+and whenever it is neither passive nor idle it transmits. -/
+theorem not_silenced_for_good {var : Variant} (hv : var.hbAny = false) {s : St} {l c t : Nat}
+    (ht : s.last = some t) (ops : List Op) (hq : ∀ op ∈ ops, QuietFor l c op)
     (hs : (run var s ops).now - t ≥ timeClusterContinuity) :
-    let s' := update (run var s ops)
-    s'.state ≠ .passive ∧ (s'.state ≠ .idle → shouldTransmit s' = true) := by
+    let s' := update var (run var s ops)
+    ¬ (s'.state = .passive ∧ s'.leader = some l ∧ s'.joined = some c) ∧
+    (s'.state ≠ .passive → s'.state ≠ .idle → shouldTransmit s' = true) := by
   intro s'
-  have hnp : s'.state ≠ .passive := by
-    by_cases h1 : (run var s ops).state = .passive
-    · have h2 := (run_quiet hv ops s hq h1).2
-      rw [hl] at h2
-      have := (leader_lost_update h1 h2 hs).1
-      simp [s', this]
-    · exact update_not_passive h1
-  refine ⟨hnp, fun hni => ?_⟩
-  unfold shouldTransmit
-  split <;> simp_all
+  constructor
+  · rintro ⟨hp, hl, hj⟩
+    obtain ⟨h1, h2, h3, _⟩ := update_passive_origin hp
+    obtain ⟨_, _, _, g4⟩ := run_quiet_for hv ops s hq h1 (h2 ▸ hl) (h3 ▸ hj)
+    rw [ht] at g4
+    have := (leader_lost_update (var := var) h1 g4 hs).1
+    rw [this] at hp
+    exact absurd hp (by decide)
+  · intro h1 h2
+    unfold shouldTransmit
+    split <;> simp_all
+
+/-- events during which no cluster VAM at all is heard (the hypothesis of the round-1 theorem) are a special case -/
+theorem quietFor_of_no_cluster_vam {l c : Nat} {op : Op} (h : ∀ v, op = .recv v → v.info = none) : QuietFor l c op := by
+  cases op with
+  | recv v => simp [QuietFor, h v rfl]
+  | _ => trivial
+
+/-- NOT SILENCED FOR GOOD (all histories).  Whatever happened since the manager was created: if the station is passive
+after an update, then it is a member of some cluster `c` led by some `l` and the history contains a cluster VAM of
+cluster `c` sent by `l` that was received LESS THAN timeClusterContinuity ago.  Equivalently: a leader that has not
+sent a cluster VAM of the joined cluster for timeClusterContinuity (silent, out of range, cluster disbanded — also with
+the CPM reason of C18-KF1 —, role switched off, new cluster founded under another id) has no passive member left after
+the member's next update. -/
+theorem passive_only_while_leader_heard {var : Variant} (hv : var.hbAny = false) (now p : Nat) (ops : List Op)
+    (hw : ∀ op ∈ ops, Op.WF op) :
+    let s := run var (St.init now p) ops
+    (update var s).state = .passive →
+    ∃ l c t pre v i post, (update var s).leader = some l ∧ (update var s).joined = some c ∧
+      ops = pre ++ .recv v :: post ∧ v.sender = l ∧ v.info = some i ∧ i.cid.getD 0 = c ∧
+      (run var (St.init now p) pre).now = t ∧ s.now - t < timeClusterContinuity := by
+  intro s hp
+  obtain ⟨h1, h2, h3, _⟩ := update_passive_origin hp
+  have hinv : Inv s := inv_run (inv_init now p) ops hw
+  obtain ⟨g1, g2, g3⟩ := hinv.passiveMem h1
+  cases hl : s.leader with
+  | none => simp [hl] at g2
+  | some l =>
+    cases hj : s.joined with
+    | none => simp [hj] at g1
+    | some c =>
+      cases ht : s.last with
+      | none => simp [ht] at g3
+      | some t =>
+        rcases run_heard_origin hv ops (St.init now p) l c t h1 hl hj ht with ⟨h0, _⟩ | ⟨pre, v, i, post, e, k1, k2, k3, k4⟩
+        · simp [St.init] at h0
+        · refine ⟨l, c, t, pre, v, i, post, h2.trans hl, h3.trans hj, e, k1, k2, k3, k4, ?_⟩
+          by_cases hlt : s.now - t < timeClusterContinuity
+          · exact hlt
+          · have := (leader_lost_update (var := var) h1 ht (by omega)).1
+            rw [this] at hp
+            exact absurd hp (by decide)
 
 /-- one round of the old defect: a second passes, the ex-leader sends an individual VAM, update -/
 def oldRound : List Op :=
@@ -325,61 +388,52 @@ theorem join_never_completes_old_witness {s : St} {v : Vam} {i : Info}
 
 /-! ## Notification durations -/
 
-/-- time fields of the operation container are always encodable as DeltaTimeQuarterSecond (1..127) -/
-theorem quarters_range (left : Nat) : 1 ≤ quarters left ∧ quarters left ≤ 127 := by
-  unfold quarters; omega
+/-- time fields of the operation container are always encodable as DeltaTimeQuarterSecond (1..127): for the function … -/
+theorem quarters_range (left : Nat) : 1 ≤ quarters left ∧ quarters left ≤ 127 := FlexModel.Vru.quarters_range left
+
+/-- … and for every operation container the manager can return, in every state (fix C18-F5; seeded change C18-m2
+re-opens this) -/
+theorem op_container_times_encodable {var : Variant} {s : St} {o : OpOut} (h : opContainer var s = some o) :
+    (∀ j, o.join = some j → 1 ≤ j.2 ∧ j.2 ≤ 127) ∧ (∀ b, o.breakup = some b → 1 ≤ b.2 ∧ b.2 ≤ 127) :=
+  opContainer_times h
 
 /-- join notification: while less than timeClusterJoinNotification has elapsed an update keeps announcing the
 join (same target, same start), with the remaining time in quarter seconds -/
 theorem join_notification_lasts {var : Variant} {s : St} {t0 cid : Nat}
     (hs : s.state = .standalone) (hj : s.joinSub = .notify) (ht : s.joinStarted = some t0) (hc : s.joinTarget = some cid)
     (h0 : 0 < t0) (hlt : s.now - t0 < timeClusterJoinNotification) :
-    let s' := update s
+    let s' := update var s
     s'.state = .standalone ∧ s'.joinSub = .notify ∧ s'.joinStarted = some t0 ∧
     ∃ o, opContainer var s' = some o ∧ o.join = some (cid, quarters (timeClusterJoinNotification - (s.now - t0))) := by
-  have hn : ¬ s.now - t0 ≥ timeClusterJoinNotification := by omega
-  have hu : updJoin (expire s) = expire s := by
-    simp [updJoin, expire, hj, ht, hn]
-  have e : update s = updLeaveNotify (expire s) := by
-    simp [update, expire, hs, updStandalone, updJoin, hj, ht, hn]
-  obtain ⟨g1, _, _, _, g5⟩ := updLeaveNotify_fields (expire s)
-  have g6 : (updLeaveNotify (expire s)).joinSub = .notify ∧ (updLeaveNotify (expire s)).joinStarted = some t0 ∧
-      (updLeaveNotify (expire s)).joinTarget = some cid := by
-    unfold updLeaveNotify clearLeave
-    repeat' split
-    all_goals simp [expire, hj, ht, hc]
+  obtain ⟨g1, g2, g3, g4⟩ := update_keeps_notify (var := var) hs hj ht hlt
   intro s'
-  have es : s' = updLeaveNotify (expire s) := e
-  rw [es]
-  refine ⟨by rw [g1]; simp [expire, hs], g6.1, g6.2.1, ?_⟩
-  have hst : (updLeaveNotify (expire s)).state = .standalone := by rw [g1]; simp [expire, hs]
-  have hnow : (updLeaveNotify (expire s)).now = s.now := by rw [g5]; rfl
+  refine ⟨g1, g2, g3, ?_⟩
+  have hnow : s'.now = s.now := update_now var s
   have ht0 : t0 ≠ 0 := by omega
-  have hjn : (standaloneOp var (updLeaveNotify (expire s))).join =
-      some (cid, quarters (timeClusterJoinNotification - (s.now - t0))) := by
-    simp [standaloneOp, g6.1, g6.2.1, g6.2.2, quarterLeft, hnow, ht0]
-  exact ⟨_, by simp only [opContainer, hst]; exact orNone_of_join hjn, hjn⟩
+  have hjn : (standaloneOp var s').join = some (cid, quarters (timeClusterJoinNotification - (s.now - t0))) := by
+    simp [standaloneOp, s', g2, g3, g4, hc, quarterLeft, hnow, ht0]
+  exact ⟨_, by simp only [opContainer, s', g1]; exact orNone_of_join hjn, hjn⟩
 
-/-- … and the first update at or after timeClusterJoinNotification ends it: waiting for admission, no
+/-- … and the first update at or after timeClusterJoinNotification ends it: waiting for admission (same target), no
 `clusterJoinInfo` any more -/
 theorem join_notification_ends {var : Variant} {s : St} {t0 : Nat}
     (hs : s.state = .standalone) (hj : s.joinSub = .notify) (ht : s.joinStarted = some t0)
     (hge : s.now - t0 ≥ timeClusterJoinNotification) :
-    let s' := update s
-    s'.state = .standalone ∧ s'.joinSub = .waiting ∧ s'.joinStarted = some s.now ∧
+    let s' := update var s
+    s'.state = .standalone ∧ s'.joinSub = .waiting ∧ s'.joinStarted = some s.now ∧ s'.joinTarget = s.joinTarget ∧
     ∀ o, opContainer var s' = some o → o.join = none := by
-  have e : update s = updLeaveNotify { expire s with joinSub := .waiting, joinStarted := some s.now, state := .standalone } := by
+  have e : update var s = updLeaveNotify { expire s with joinSub := .waiting, joinStarted := some s.now, state := .standalone } := by
     simp [update, expire, hs, updStandalone, updJoin, hj, ht, hge]
   intro s'
   have es : s' = _ := e
   obtain ⟨g1, _, _, _, _⟩ := updLeaveNotify_fields
     { expire s with joinSub := .waiting, joinStarted := some s.now, state := .standalone }
-  have g6 : s'.joinSub = .waiting ∧ s'.joinStarted = some s.now := by
+  have g6 : s'.joinSub = .waiting ∧ s'.joinStarted = some s.now ∧ s'.joinTarget = s.joinTarget := by
     rw [es]; unfold updLeaveNotify clearLeave
     repeat' split
-    all_goals simp
+    all_goals simp [expire]
   have hst : s'.state = .standalone := by rw [es, g1]
-  refine ⟨hst, g6.1, g6.2, ?_⟩
+  refine ⟨hst, g6.1, g6.2.1, g6.2.2, ?_⟩
   intro o ho
   simp only [opContainer, hst] at ho
   rw [orNone_some ho]
@@ -406,30 +460,10 @@ theorem join_notification_stable {var : Variant} (hv : var.createDuringNotify = 
   | breakup r => simp [step, breakup, hs, hj, ht]
   | recv v =>
     simp only [step]
-    have a0 : (recvVrus s v).state = .standalone ∧ (recvVrus s v).joinSub = .notify ∧
-        (recvVrus s v).joinStarted = some t0 ∧ (recvVrus s v).joinTarget = s.joinTarget := ⟨hs, hj, ht, rfl⟩
-    by_cases hab : recvAborted var v = true
-    · rw [recv_of_aborted hab]; exact a0
-    · rw [recv_of_not_aborted (by simpa using hab)]
-      have a1 : (recvInfoOpt (recvVrus s v) v).state = .standalone ∧ (recvInfoOpt (recvVrus s v) v).joinSub = .notify ∧
-          (recvInfoOpt (recvVrus s v) v).joinStarted = some t0 ∧
-          (recvInfoOpt (recvVrus s v) v).joinTarget = s.joinTarget := by
-        unfold recvInfoOpt
-        split
-        · simp [recvInfo, recvVrus, hs, hj, ht]
-        · exact a0
-      generalize recvInfoOpt (recvVrus s v) v = s1 at a1
-      have a2 : (recvOpOpt var s1 v).state = .standalone ∧ (recvOpOpt var s1 v).joinSub = .notify ∧
-          (recvOpOpt var s1 v).joinStarted = some t0 ∧ (recvOpOpt var s1 v).joinTarget = s.joinTarget := by
-        unfold recvOpOpt
-        split
-        · unfold recvOp recvTrack recvBreakup
-          simp only [a1.1]
-          split <;> simp [a1]
-        · exact a1
-      generalize recvOpOpt var s1 v = s2 at a2
-      unfold recvHb
-      split <;> simp [a2]
+    have e := recv_standalone_keeps (var := var) v hs (by rw [hj]; decide)
+    have f := fun {α} (g : St → α) (hg : ∀ x, g (ctl x) = g x) => (hg _).symm.trans ((congrArg g e).trans (hg s))
+    exact ⟨(f St.state (fun _ => rfl)).trans hs, (f St.joinSub (fun _ => rfl)).trans hj,
+      (f St.joinStarted (fun _ => rfl)).trans ht, f St.joinTarget (fun _ => rfl)⟩
 
 /-- events that do not abort a join on purpose -/
 def NonAborting (op : Op) : Prop := op ≠ .cancelJoin ∧ op ≠ .roleOff ∧ ∀ r, op ≠ .leave r
@@ -460,129 +494,178 @@ theorem join_notification_persists {var : Variant} (hv : var.createDuringNotify 
     obtain ⟨g1, g2, g3, g4⟩ := ih (step var s op).1 h1.1 h1.2.1 h1.2.2.1 (fun o ho => hna o (by simp [ho])) hlt
     exact ⟨g1, g2, g3, g4.trans h1.2.2.2⟩
 
-/-- leave notification after membership: while less than timeClusterLeaveNotification has elapsed an update keeps
-`clusterLeaveInfo` (cluster left, reason) in the container — also while a new join is being announced (fix C18-F3) -/
-theorem leave_notification_lasts {var : Variant} (hv : var.joinHidesLeave = false) {s : St} (hinv : Inv s) {t1 : Nat}
+/-- events that do not end a leave notification / break-up warning on purpose: everything except role-off -/
+def Keeping (op : Op) : Prop := op ≠ .roleOff
+
+/-- LEAVE NOTIFICATION LASTS ITS DURATION over every history (repaired code: fixes C18-F3 and C18-F6).  A reachable
+stand-alone station that left cluster `leaveCid` at `t1`: after ANY sequence of events without role-off — updates,
+received VAMs, a new `initiate_join`, its `cancel_join`, creation attempts, … — that ends before
+t1 + timeClusterLeaveNotification the operation container still carries `clusterLeaveInfo` of the cluster left, with
+the reason given.  (No hypothesis on the join sub-state: the round-1 statement excluded a cancelled join, where the
+unrepaired code was wrong — `leave_hidden_by_cancelled_join_old_witness`.) -/
+theorem leave_notification_persists {var : Variant} (h1 : var.joinHidesLeave = false) (h2 : var.createDuringNotify = false)
+    (h3 : var.cancelHidesLeave = false) {s : St} (hr : Reachable var s) {t1 : Nat}
     (hs : s.state = .standalone) (hl : s.leaveNotify = true) (ht : s.leaveStarted = some t1)
-    (hj : s.joinSub = .none ∨ s.joinSub = .notify) (hlt : s.now - t1 < timeClusterLeaveNotification) :
-    let s' := update s
+    (ops : List Op) (hk : ∀ op ∈ ops, Keeping op) (hlt : (run var s ops).now - t1 < timeClusterLeaveNotification) :
+    let s' := run var s ops
     s'.state = .standalone ∧ s'.leaveNotify = true ∧ s'.leaveStarted = some t1 ∧
     ∃ o, opContainer var s' = some o ∧ o.leave = some (s.leaveCid.getD 0, s.leaveReason.getD leaveNotProvided) := by
-  have hn : ¬ s.now - t1 ≥ timeClusterLeaveNotification := by omega
-  have hlj := leave_le_join
-  have hu : updJoin (expire s) = expire s := by
-    rcases hj with hj | hj
-    · simp [updJoin, expire, hj]
-    · have := hinv.joinTimer (Or.inl hj)
-      cases hjs : s.joinStarted with
-      | none => simp [hjs] at this
-      | some t0 =>
-        have hle := hinv.leaveBeforeJoin hj hl t1 t0 ht hjs
-        have : ¬ s.now - t0 ≥ timeClusterJoinNotification := by omega
-        simp [updJoin, expire, hj, hjs, this]
-  have e : update s = expire s := by
-    simp only [update, show (expire s).state = .standalone from by simp [expire, hs], updStandalone, hu]
-    simp [updLeaveNotify, expire, hl, ht, hn]
-  intro s'
-  have es : s' = expire s := e
-  have hst : s'.state = .standalone := by rw [es]; simp [expire, hs]
-  have hlo : leaveOut s' = some (s.leaveCid.getD 0, s.leaveReason.getD leaveNotProvided) := by
-    rw [es]; simp [leaveOut, expire, hl]
-  have hlv : (standaloneOp var s').leave = some (s.leaveCid.getD 0, s.leaveReason.getD leaveNotProvided) := by
-    have hjs' : s'.joinSub = s.joinSub := by rw [es]; rfl
-    unfold standaloneOp
-    rcases hj with hj | hj
-    · simp [hjs', hj, hlo]
-    · simp [hjs', hj, hlo, hv]
-  refine ⟨hst, by rw [es]; simp [expire, hl], by rw [es]; simp [expire, ht], _, ?_, hlv⟩
-  simp only [opContainer, hst]
-  exact orNone_of_leave hlv
+  have h := leaveRunning_run h2 ops s (leaveRunning_of_inv (reachable_inv hr) hs hl ht) hk hlt
+  exact ⟨h.st, h.ln, h.ls, leaveRunning_container h1 h3 h⟩
 
-/-- … and the first update at or after timeClusterLeaveNotification ends it -/
+/-- single-update form (`ops = [update]`) -/
+theorem leave_notification_lasts {var : Variant} (h1 : var.joinHidesLeave = false) (h2 : var.createDuringNotify = false)
+    (h3 : var.cancelHidesLeave = false) {s : St} (hr : Reachable var s) {t1 : Nat}
+    (hs : s.state = .standalone) (hl : s.leaveNotify = true) (ht : s.leaveStarted = some t1)
+    (hlt : s.now - t1 < timeClusterLeaveNotification) :
+    let s' := update var s
+    s'.state = .standalone ∧ s'.leaveNotify = true ∧ s'.leaveStarted = some t1 ∧
+    ∃ o, opContainer var s' = some o ∧ o.leave = some (s.leaveCid.getD 0, s.leaveReason.getD leaveNotProvided) :=
+  leave_notification_persists h1 h2 h3 hr hs hl ht [.update] (by simp [Keeping])
+    (by simp only [run, List.foldl_cons, List.foldl_nil, step, update_now]; exact hlt)
+
+/-- … and the first update at or after timeClusterLeaveNotification ends it, whatever the join sub-state: the
+membership notice is gone; a `clusterLeaveInfo` still present is the (queued) notice of a cancelled / failed join -/
 theorem leave_notification_ends {var : Variant} {s : St} {t1 : Nat}
     (hs : s.state = .standalone) (hl : s.leaveNotify = true) (ht : s.leaveStarted = some t1)
-    (hj : s.joinSub = .none ∨ s.joinSub = .notify) (hge : s.now - t1 ≥ timeClusterLeaveNotification) :
-    let s' := update s
-    s'.state = .standalone ∧ s'.leaveNotify = false ∧ ∀ o, opContainer var s' = some o → o.leave = none := by
-  intro s'
-  have hst : s'.state = .standalone := update_state_of_standalone hs
-  have key : s'.leaveNotify = false ∧ (s'.joinSub = .cancelled ∨ s'.joinSub = .failed → False) := by
-    simp only [s', update, show (expire s).state = .standalone from by simp [expire, hs], updStandalone]
-    have h1 : (updJoin (expire s)).leaveNotify = true ∧ (updJoin (expire s)).leaveStarted = some t1 ∧
-        (updJoin (expire s)).now = s.now ∧ ((updJoin (expire s)).joinSub = .none ∨ (updJoin (expire s)).joinSub = .notify ∨
-          (updJoin (expire s)).joinSub = .waiting) := by
-      unfold updJoin
-      rcases hj with hj | hj
-      · simp [expire, hj, hl, ht]
-      · simp only [expire, hj]
-        split
-        · split <;> simp [hl, ht]
-        · simp [hl, ht]
-    generalize updJoin (expire s) = s1 at h1
-    obtain ⟨a1, a2, a3, a4⟩ := h1
-    have : s1.now - t1 ≥ timeClusterLeaveNotification := by rw [a3]; exact hge
-    simp only [updLeaveNotify, a1, a2, this, if_true, clearLeave]
-    rcases a4 with h | h | h <;> simp [h]
-  refine ⟨hst, key.1, ?_⟩
-  intro o ho
-  simp only [opContainer, hst] at ho
-  rw [orNone_some ho]
-  unfold standaloneOp
-  have hlo : leaveOut s' = none := by simp [leaveOut, key.1]
-  split
-  · simp [hlo]
-  · split
-    · rename_i h; exact absurd h key.2
-    · simp [hlo]
-
-/-- cancelled / failed join: the leave notice (target cluster, cancelledJoin / failedJoin) is shown while less than
-timeClusterLeaveNotification has elapsed and removed by the first update after that -/
-theorem join_leave_notice {var : Variant} {s : St} {t1 : Nat}
-    (hs : s.state = .standalone) (hj : s.joinSub = .cancelled ∨ s.joinSub = .failed) (ht : s.joinLeaveStarted = some t1) :
-    let s' := update s
-    (s.now - t1 < timeClusterLeaveNotification →
-      s'.joinSub = s.joinSub ∧
-      ∃ o, opContainer var s' = some o ∧ o.leave = some (s.joinTarget.getD 0, s.joinLeaveReason.getD leaveNotProvided)) ∧
-    (s.now - t1 ≥ timeClusterLeaveNotification → s'.joinSub = .none) := by
+    (hge : s.now - t1 ≥ timeClusterLeaveNotification) :
+    let s' := update var s
+    s'.state = .standalone ∧ s'.leaveNotify = false ∧
+    ∀ o, opContainer var s' = some o → o.leave = none ∨
+      ((s'.joinSub = .cancelled ∨ s'.joinSub = .failed) ∧
+        o.leave = some (s'.joinTarget.getD 0, s'.joinLeaveReason.getD leaveNotProvided)) := by
   intro s'
   have hst : s'.state = .standalone := update_state_of_standalone hs
   have hex : (expire s).state = .standalone := by simp [expire, hs]
+  obtain ⟨_, k2, k3, _, _, k6, _⟩ := updJoin_keeps (var := var) hex
+  have hln : s'.leaveNotify = false := by
+    simp only [s', update, hex, updStandalone]
+    have a1 : (updJoin var (expire s)).leaveNotify = true := by rw [k2]; simp [expire, hl]
+    have a2 : (updJoin var (expire s)).leaveStarted = some t1 := by rw [k3]; simp [expire, ht]
+    have a3 : (updJoin var (expire s)).now - t1 ≥ timeClusterLeaveNotification := by rw [k6]; simpa [expire] using hge
+    simp [updLeaveNotify, a1, a2, a3, clearLeave]
+  refine ⟨hst, hln, ?_⟩
+  intro o ho
+  simp only [opContainer, hst] at ho
+  rw [orNone_some ho]
+  have hlo : leaveOut s' = none := by simp [leaveOut, hln]
+  unfold standaloneOp
+  split
+  · left; simp [hlo]
+  · split
+    · rename_i h; simp [hln] at h
+    · split
+      · rename_i h; right; exact ⟨h, rfl⟩
+      · left; exact hlo
+
+/-- C18-F6, before the repair (`cancelHidesLeave := true`): leave cluster 9, announce a join towards 5, cancel it —
+150 ms after leaving, the `clusterLeaveInfo` of cluster 9 has been replaced by the cancelled-join notice although the
+leave notification is still running (leaveNotify, 850 ms to go) -/
+theorem leave_hidden_by_cancelled_join_old_witness :
+    let s := run { cancelHidesLeave := true } (St.init 1000000 128)
+      (passiveWitness ++ [.leave 8, .tick 50, .initiateJoin 5, .tick 50, .cancelJoin, .tick 50, .update])
+    s.leaveNotify = true ∧ s.leaveCid = some 9 ∧
+    opContainer { cancelHidesLeave := true } s = some { leave := some (5, leaveCancelledJoin) } := by decide
+
+/-- the same history on the repaired code: cluster 9's notice for its full second, then the cancelled-join notice for
+ITS full second (started by the update that ended the first), then nothing -/
+example :
+    let h := passiveWitness ++ [.leave 8, .tick 50, .initiateJoin 5, .tick 50, .cancelJoin, .tick 50, .update]
+    opContainer {} (run {} (St.init 1000000 128) h) = some { leave := some (9, 8) } ∧
+    opContainer {} (run {} (St.init 1000000 128) (h ++ [.tick 849, .update])) = some { leave := some (9, 8) } ∧
+    opContainer {} (run {} (St.init 1000000 128) (h ++ [.tick 850, .update])) = some { leave := some (5, leaveCancelledJoin) } ∧
+    opContainer {} (run {} (St.init 1000000 128) (h ++ [.tick 850, .update, .tick 999, .update])) =
+      some { leave := some (5, leaveCancelledJoin) } ∧
+    opContainer {} (run {} (St.init 1000000 128) (h ++ [.tick 850, .update, .tick 1000, .update])) = none := by decide
+
+/-- NOTICE OF A CANCELLED / FAILED JOIN LASTS ITS DURATION over every history: once it has the `clusterLeaveInfo`
+(no membership leave notification in front of it), after ANY sequence of events without role-off that ends before
+t1 + timeClusterLeaveNotification the container carries (target cluster, cancelledJoin / failedJoin) -/
+theorem join_leave_notice_persists {var : Variant} (hv : var.createDuringNotify = false) {s : St} {t1 : Nat}
+    (hs : s.state = .standalone) (hj : s.joinSub = .cancelled ∨ s.joinSub = .failed) (ht : s.joinLeaveStarted = some t1)
+    (hnl : s.leaveNotify = false) (ops : List Op) (hk : ∀ op ∈ ops, Keeping op)
+    (hlt : (run var s ops).now - t1 < timeClusterLeaveNotification) :
+    let s' := run var s ops
+    s'.joinSub = s.joinSub ∧
+    ∃ o, opContainer var s' = some o ∧ o.join = none ∧
+      o.leave = some (s.joinTarget.getD 0, s.joinLeaveReason.getD leaveNotProvided) := by
+  have h := joinLeaveRunning_run hv ops s ⟨hs, hj, rfl, rfl, rfl, ht, hnl⟩ hk hlt
+  obtain ⟨o, ho, hl, hjn⟩ := joinLeaveRunning_container (var := var) h
+  exact ⟨h.js, o, ho, hjn, hl⟩
+
+/-- … it is queued behind a running membership leave notification (each update re-arms its start), so that its own full
+duration follows (`leave_notification_ends` + this theorem) … -/
+theorem join_leave_notice_queued {var : Variant} (hv : var.cancelHidesLeave = false) {s : St} {t1 : Nat}
+    (hs : s.state = .standalone) (hj : s.joinSub = .cancelled ∨ s.joinSub = .failed) (ht : s.joinLeaveStarted = some t1)
+    (hl : s.leaveNotify = true) :
+    let s' := update var s
+    s'.joinSub = s.joinSub ∧ s'.joinTarget = s.joinTarget ∧ s'.joinLeaveReason = s.joinLeaveReason ∧
+    s'.joinLeaveStarted = some s.now := by
+  have hex : (expire s).state = .standalone := by simp [expire, hs]
+  have e : updJoin var (expire s) = { expire s with joinLeaveStarted := some s.now } := by
+    rcases hj with hj | hj <;> simp [updJoin, expire, hj, ht, hv, hl]
+  simp only [update, hex, updStandalone, e]
+  unfold updLeaveNotify clearLeave
+  repeat' split
+  all_goals simp [expire]
+
+/-- … and the first update at or after its duration removes it (single update; it is shown until then) -/
+theorem join_leave_notice {var : Variant} {s : St} {t1 : Nat}
+    (hs : s.state = .standalone) (hj : s.joinSub = .cancelled ∨ s.joinSub = .failed) (ht : s.joinLeaveStarted = some t1)
+    (hnl : s.leaveNotify = false) :
+    let s' := update var s
+    (s.now - t1 < timeClusterLeaveNotification →
+      s'.joinSub = s.joinSub ∧
+      ∃ o, opContainer var s' = some o ∧ o.leave = some (s.joinTarget.getD 0, s.joinLeaveReason.getD leaveNotProvided)) ∧
+    (s.now - t1 ≥ timeClusterLeaveNotification → s'.joinSub = .none ∧ opContainer var s' = none) := by
+  intro s'
   constructor
   · intro hlt
+    have hv : ∀ op ∈ [Op.update], Keeping op := by simp [Keeping]
+    -- `createDuringNotify` plays no role for an update: go through the step lemma directly
+    have h : JoinLeaveRunning s t1 s.joinSub s.joinTarget s.joinLeaveReason := ⟨hs, hj, rfl, rfl, rfl, ht, hnl⟩
+    have hex : (expire s).state = .standalone := by simp [expire, hs]
     have hn : ¬ s.now - t1 ≥ timeClusterLeaveNotification := by omega
-    have hu : updJoin (expire s) = expire s := by
-      rcases hj with hj | hj <;> simp [updJoin, expire, hj, ht, hn]
-    obtain ⟨_, _, _, _, _⟩ := updLeaveNotify_fields (expire s)
-    have k : s'.joinSub = s.joinSub ∧ s'.joinTarget = s.joinTarget ∧ s'.joinLeaveReason = s.joinLeaveReason := by
-      simp only [s', update, hex, updStandalone, hu]
-      unfold updLeaveNotify clearLeave
-      repeat' split
-      all_goals simp [expire]
-    have hlv : (standaloneOp var s').leave = some (s.joinTarget.getD 0, s.joinLeaveReason.getD leaveNotProvided) := by
-      unfold standaloneOp
-      rcases hj with hj | hj <;> simp [k.1, k.2.1, k.2.2, hj]
-    refine ⟨k.1, _, ?_, hlv⟩
-    simp only [opContainer, hst]
-    exact orNone_of_leave hlv
+    have e : s' = expire s := by
+      rcases hj with hj | hj <;>
+        simp [s', update, expire, hs, updStandalone, updJoin, hj, ht, hnl, hn, updLeaveNotify]
+    have h' : JoinLeaveRunning s' t1 s.joinSub s.joinTarget s.joinLeaveReason := by
+      rw [e]
+      exact ⟨hex, hj, by simp [expire], by simp [expire], by simp [expire], by simp [expire, ht], by simp [expire, hnl]⟩
+    obtain ⟨o, ho, hl, _⟩ := joinLeaveRunning_container (var := var) h'
+    exact ⟨h'.js, o, ho, hl⟩
   · intro hge
-    simp only [s', update, hex, updStandalone]
-    have hu : (updJoin (expire s)).joinSub = .none := by
-      rcases hj with hj | hj <;> simp [updJoin, expire, hj, ht, hge]
-    generalize updJoin (expire s) = s1 at hu
-    unfold updLeaveNotify clearLeave
-    repeat' split
-    all_goals simp [hu]
+    have e : s' = { expire s with joinSub := .none, joinTarget := none, joinLeaveReason := none, joinLeaveStarted := none } := by
+      rcases hj with hj | hj <;>
+        simp [s', update, expire, hs, updStandalone, updJoin, hj, ht, hnl, hge, updLeaveNotify]
+    rw [e]
+    refine ⟨rfl, ?_⟩
+    simp [opContainer, expire, hs, standaloneOp, hnl, leaveOut, OpOut.orNone]
 
-/-- break-up warning: while less than timeClusterBreakupWarning has elapsed an update keeps the cluster and the
-`clusterBreakupInfo` (reason, remaining quarter seconds) … -/
+/-- BREAK-UP WARNING LASTS ITS DURATION over every history: a leader that announced the break-up of its cluster `cid`
+at t0 with reason `r`: after ANY sequence of events without role-off (updates, received VAMs incl. join/leave notices
+of members and foreign break-up indications, commands — a second `trigger_breakup_cluster` is refused) that ends before
+t0 + timeClusterBreakupWarning it is still the leader of `cid` and the container carries (r, remaining quarter seconds) -/
+theorem breakup_warning_persists {var : Variant} {s : St} {c : OwnCluster} {t0 r : Nat}
+    (hs : s.state = .leader) (hc : s.cluster = some c) (ht : c.breakupStarted = some t0) (hr : c.breakupReason = some r)
+    (ops : List Op) (hk : ∀ op ∈ ops, Keeping op) (hlt : (run var s ops).now - t0 < timeClusterBreakupWarning) :
+    let s' := run var s ops
+    s'.state = .leader ∧ clusterId s' = some c.cid ∧
+    opContainer var s' = some { breakup := some (r, quarters (timeClusterBreakupWarning - (s'.now - t0))) } := by
+  have h := breakupRunning_run (var := var) ops s ⟨hs, c, hc, rfl, ht, hr⟩ hk hlt
+  obtain ⟨h1, _⟩ := breakupRunning_container (var := var) h
+  obtain ⟨hst, c', hc', hcid, _, _⟩ := h
+  exact ⟨hst, by simp [clusterId, hst, hc', hcid], h1⟩
+
+/-- single-update form -/
 theorem breakup_warning_lasts {var : Variant} {s : St} {c : OwnCluster} {t0 r : Nat}
     (hs : s.state = .leader) (hc : s.cluster = some c) (ht : c.breakupStarted = some t0) (hr : c.breakupReason = some r)
     (hlt : s.now - t0 < timeClusterBreakupWarning) :
-    let s' := update s
+    let s' := update var s
     s'.state = .leader ∧ s'.cluster = some c ∧
     opContainer var s' = some { breakup := some (r, quarters (timeClusterBreakupWarning - (s.now - t0))) } := by
   have hn : ¬ s.now - t0 ≥ timeClusterBreakupWarning := by omega
-  have e : update s = expire s := by
+  have e : update var s = expire s := by
     simp [update, expire, hs, updLeader, hc, ht, hn]
   intro s'
   have es : s' = expire s := e
@@ -591,12 +674,12 @@ theorem breakup_warning_lasts {var : Variant} {s : St} {c : OwnCluster} {t0 r : 
   simp [opContainer, expire, hs, hc, ht, hr]
 
 /-- … and the first update at or after timeClusterBreakupWarning disbands: stand-alone, no cluster, transmitting -/
-theorem breakup_warning_ends {s : St} {c : OwnCluster} {t0 : Nat}
+theorem breakup_warning_ends {var : Variant} {s : St} {c : OwnCluster} {t0 : Nat}
     (hs : s.state = .leader) (hc : s.cluster = some c) (ht : c.breakupStarted = some t0)
     (hge : s.now - t0 ≥ timeClusterBreakupWarning) :
-    let s' := update s
+    let s' := update var s
     s'.state = .standalone ∧ s'.cluster = none ∧ infoContainer s' = none ∧ shouldTransmit s' = true := by
-  have e : update s = { expire s with cluster := none, state := .standalone } := by
+  have e : update var s = { expire s with cluster := none, state := .standalone } := by
     simp [update, expire, hs, updLeader, hc, ht, hge]
   intro s'
   have es : s' = _ := e
@@ -615,6 +698,151 @@ theorem breakup_starts_warning {s : St} {r : Nat} (h : (breakup s r).2 = some tr
       · simp [breakup, hst, hc, hb] at h
       · simp [breakup, hst, hc, hb]
   · simp [breakup, hst] at h
+
+/-! ## Two-station composition: the leader's emitted VAM is the member's input -/
+
+/-- what a reachable leader puts on the air: a cluster VAM under its own station id carrying its cluster id and
+cardinality (circular bounding box), with the operation container of `get_cluster_operation_container()` -/
+theorem leader_emits_cluster_vam {var : Variant} {a : St} (ha : Reachable var a) (hl : a.state = .leader)
+    (sid : Nat) (x y : Int) :
+    ∃ c, a.cluster = some c ∧ clusterId a = some c.cid ∧
+      emitVam var sid x y a = some { sender := sid, x := x, y := y,
+                                     info := some { cid := some c.cid, card := c.card, shape := .circular },
+                                     op := (opContainer var a).map OpOut.toOpC } := by
+  obtain ⟨c, hc, _⟩ := (leader_iff ha).mp hl
+  refine ⟨c, hc, by simp [clusterId, hl, hc], ?_⟩
+  simp [emitVam, shouldTransmit, hl, infoContainer, hc]
+
+/-- JOIN COMPLETES, TWO-STATION COMPOSITION.  Station `a` (id `sid`) is a reachable leader of cluster `cid` that is not
+breaking up; station `b` is reachable and waiting for admission to `cid`.  The VAM `a` EMITS (its own containers, not an
+arbitrary input) exists, and fed to `b` it makes `b` a silent member of `cid` led by `sid`, timer armed now. -/
+theorem join_completes_two_station {var : Variant} (ht : var.tupleFails = false)
+    {a b : St} (ha : Reachable var a) (hb : Reachable var b) {cid : Nat} (sid : Nat) (x y : Int)
+    (hl : a.state = .leader) (hcid : clusterId a = some cid) (hnb : ∀ c, a.cluster = some c → c.breakupStarted = none)
+    (hs : b.state = .standalone) (hw : b.joinSub = .waiting) (htg : b.joinTarget = some cid) :
+    ∃ v, emitVam var sid x y a = some v ∧
+      let b' := recv var b v
+      b'.state = .passive ∧ b'.joined = some cid ∧ b'.leader = some sid ∧ b'.last = some b.now ∧
+        clusterId b' = some cid ∧ shouldTransmit b' = false := by
+  obtain ⟨c, hc, hci, he⟩ := leader_emits_cluster_vam ha hl sid x y
+  have hcc : c.cid = cid := by rw [hci] at hcid; simpa using hcid
+  have hop : opContainer var a = none := by simp [opContainer, hl, hc, hnb c hc]
+  rw [hop] at he
+  refine ⟨_, he, ?_⟩
+  exact join_completes ht hb hs hw htg (v := { sender := sid, x := x, y := y, op := none,
+                                               info := some { cid := some c.cid, card := c.card, shape := .circular } }) rfl
+    (by simp [hcc]) (by intro o ho; simp at ho)
+
+/-- JOIN, END TO END on the member's side: a reachable stand-alone station with no join in progress announces the join
+towards `cid`, the notification time passes (`d1 ≥ timeClusterJoinNotification`), an update makes it wait for
+admission, and the cluster VAM emitted by the leader `a` of `cid` — any `d2` later, before the update that would detect
+the failed join — completes the join. -/
+theorem join_end_to_end {var : Variant} (ht : var.tupleFails = false)
+    {a b : St} (ha : Reachable var a) (hb : Reachable var b) {cid : Nat} (sid : Nat) (x y : Int) (d1 d2 : Nat)
+    (hl : a.state = .leader) (hcid : clusterId a = some cid) (hnb : ∀ c, a.cluster = some c → c.breakupStarted = none)
+    (hs : b.state = .standalone) (hj : b.joinSub = .none) (hd : d1 ≥ timeClusterJoinNotification) :
+    ∃ v, emitVam var sid x y a = some v ∧
+      let b' := run var b [.initiateJoin cid, .tick d1, .update, .tick d2, .recv v]
+      b'.state = .passive ∧ b'.joined = some cid ∧ b'.leader = some sid ∧ b'.last = some b'.now ∧
+        shouldTransmit b' = false := by
+  -- the member's state before the reception
+  let b1 := (step var b (.initiateJoin cid)).1
+  let b2 := (step var b1 (.tick d1)).1
+  let b3 := (step var b2 .update).1
+  let b4 := (step var b3 (.tick d2)).1
+  have r1 : Reachable var b1 := reachable_step hb _ trivial
+  have r2 : Reachable var b2 := reachable_step r1 _ trivial
+  have r3 : Reachable var b3 := reachable_step r2 _ trivial
+  have r4 : Reachable var b4 := reachable_step r3 _ trivial
+  have e1 : b1 = { b with joinSub := .notify, joinTarget := some cid, joinStarted := some b.now } := by
+    simp [b1, step, initiateJoin, hs, hj]
+  have f2 : b2.state = .standalone ∧ b2.joinSub = .notify ∧ b2.joinStarted = some b.now ∧ b2.joinTarget = some cid ∧
+      b2.now = b.now + d1 := by
+    simp [b2, step, e1, hs]
+  obtain ⟨g1, g2, _, g4, _⟩ := join_notification_ends (var := var) f2.1 f2.2.1 f2.2.2.1 (by rw [f2.2.2.2.2]; omega)
+  have f4 : b4.state = .standalone ∧ b4.joinSub = .waiting ∧ b4.joinTarget = some cid := by
+    refine ⟨g1, g2, ?_⟩
+    show (update var b2).joinTarget = some cid
+    rw [g4]; exact f2.2.2.2.1
+  obtain ⟨v, hv, k1, k2, k3, k4, _, k6⟩ := join_completes_two_station ht ha r4 sid x y hl hcid hnb f4.1 f4.2.1 f4.2.2
+  refine ⟨v, hv, ?_⟩
+  have e : run var b [.initiateJoin cid, .tick d1, .update, .tick d2, .recv v] = recv var b4 v := rfl
+  simp only [e]
+  refine ⟨k1, k2, k3, ?_, k6⟩
+  rw [k4, recv_now]
+
+/-! ## Threads: calls under the manager's lock are serialisable -/
+
+/-- one call of the public API at instruction level: arbitrary micro-steps whose composition is the model
+transition of `op` (what `with self._lock:` around the whole body buys: the micro-steps are never interleaved with
+another call's - `calls_atomic` -, so only their composition matters) -/
+structure FineCall (var : Variant) where
+  op : Op
+  steps : Atomic.Call St
+  ok : FlexModel.Conc.Reduction.pipe (steps.1 ++ [steps.2]) = fun s => (step var s op).1
+
+/-- CONSISTENCY UNDER THREADS.  Any number of threads call the public API concurrently, each call executing as
+micro-steps inside one section of the manager's lock (the shape `public_methods_atomic` establishes for the source).
+Every complete schedule of the instruction-level system ends in a state that the SEQUENTIAL model reaches from the
+initial state by some sequence of the calls' events - hence in a state satisfying the invariant (leader / passive
+consistency, no pending leave while passive, …). -/
+theorem concurrent_calls_consistent {var : Variant} (lk : FlexModel.Conc.Lock) (threads : List (List (FineCall var)))
+    (x : St) (hx : Inv x) (hwf : ∀ cs ∈ threads, ∀ c ∈ cs, c.op.WF) (sched : List FlexModel.Conc.ThreadId)
+    (hfin : FlexModel.Conc.finished (FlexModel.Conc.run
+      (FlexModel.Conc.mkSys x (threads.map (fun cs => Atomic.fineProg lk (cs.map (·.steps))))) sched) = true) :
+    let final := (FlexModel.Conc.run
+      (FlexModel.Conc.mkSys x (threads.map (fun cs => Atomic.fineProg lk (cs.map (·.steps))))) sched).sh
+    (∃ ops : List Op, (∀ op ∈ ops, ∃ cs ∈ threads, ∃ c ∈ cs, c.op = op) ∧ final = run var x ops) ∧ Inv final := by
+  intro final
+  have hm : threads.map (fun cs => Atomic.fineProg lk (cs.map (·.steps))) =
+      (threads.map (fun cs => cs.map (·.steps))).map (Atomic.fineProg lk) := by simp [List.map_map]
+  obtain ⟨csched, _, _, hsh⟩ := Atomic.calls_atomic lk (threads.map (fun cs => cs.map (·.steps))) x sched (by rw [← hm]; exact hfin)
+  have hfinal : final = (FlexModel.Conc.run (FlexModel.Conc.mkSys x
+      ((threads.map (fun cs => cs.map (·.steps))).map (Atomic.atomicProg lk))) csched).sh := by
+    rw [hsh, ← hm]
+  -- every state of the atomic system is a sequential model run over events of the calls
+  let P : St → Prop := fun s => ∃ ops : List Op, (∀ op ∈ ops, ∃ cs ∈ threads, ∃ c ∈ cs, c.op = op) ∧ s = run var x ops
+  have hP : P final := by
+    rw [hfinal]
+    apply FlexModel.Conc.inv_of_blocks P
+    · exact ⟨[], by simp, rfl⟩
+    · intro th hth f hf s ⟨ops, hops, hs⟩
+      simp only [FlexModel.Conc.mkSys, List.map_map, List.mem_map] at hth
+      obtain ⟨cs, hcs, rfl⟩ := hth
+      simp only [Function.comp, Atomic.atomicProg, List.map_map] at hf
+      obtain ⟨p, hp, hfp⟩ := FlexModel.Conc.mem_blocksOf_flatten _ f hf
+      simp only [List.mem_map] at hp
+      obtain ⟨c, hc, rfl⟩ := hp
+      simp only [Function.comp, Atomic.Call.atomic, FlexModel.Conc.sect, FlexModel.Conc.blocksOf, List.mem_cons,
+        List.not_mem_nil, or_false] at hfp
+      subst hfp
+      refine ⟨ops ++ [c.op], ?_, ?_⟩
+      · intro op hop
+        rcases List.mem_append.mp hop with h | h
+        · exact hops op h
+        · simp only [List.mem_cons, List.not_mem_nil, or_false] at h
+          exact ⟨cs, hcs, c, hc, h.symm⟩
+      · rw [c.ok, hs]
+        simp [run, List.foldl_append]
+  refine ⟨hP, ?_⟩
+  obtain ⟨ops, hops, hs⟩ := hP
+  rw [hs]
+  apply inv_run hx
+  intro op hop
+  obtain ⟨cs, hcs, c, hc, rfl⟩ := hops op hop
+  exact hwf cs hcs c hc
+
+/-- non-vacuity of `FineCall`: every event has the trivial one-step call; role-off as the SEVEN attribute stores of
+`set_vru_role_off` (in source order) is a seven-step call -/
+def FineCall.single (var : Variant) (op : Op) : FineCall var :=
+  { op := op, steps := ([], fun s => (step var s op).1), ok := rfl }
+
+def roleOffStores : FineCall {} :=
+  { op := .roleOff,
+    steps := ([fun s => { s with state := .idle }, fun s => { s with cluster := none }, fun s => { s with joined := none },
+               fun s => { s with leader := none }, fun s => { s with last := none }, fun s => { s with joinSub := .none }],
+              fun s => { s with leaveNotify := false }),
+    ok := rfl }
 
 /-! ## Non-vacuity: the hypotheses above are met by runs through the public API -/
 
@@ -659,5 +887,77 @@ example :
     (step {} (run {} (St.init 1000000 128) (leaderWitness.dropLast ++ [.initiateJoin 9])) (.tryCreate 0 0 [7])).2 = some false ∧
     (step { createDuringNotify := true } (run {} (St.init 1000000 128) (leaderWitness.dropLast ++ [.initiateJoin 9]))
       (.tryCreate 0 0 [7])).2 = some true := by decide
+
+/-! ### Round 3 non-vacuity -/
+
+/-- member of cluster 9 (leader 21) whose ex-leader founds a NEW cluster 7 and keeps sending cluster VAMs for it, while
+station 22 advertises a cluster with the old id 9 and station 23 another one: all of that is `QuietFor 21 9`, and the
+member is released 2 s after the last cluster VAM of (21, 9) — the hypothesis of `not_silenced_for_good` is met by a
+non-trivial history (seeded change C18-m3 breaks exactly this) -/
+def refoundHistory : List Op :=
+  [.tick 500, .recv { sender := 21, x := 300, y := 0, info := some { cid := some 7, card := 1, shape := .circular }, op := none },
+   .tick 500, .recv { sender := 22, x := 0, y := 480, info := some { cid := some 9, card := 3, shape := .other }, op := none },
+   .update,
+   .tick 500, .recv { sender := 21, x := 300, y := 0, info := some { cid := some 7, card := 1, shape := .circular }, op := none },
+   .tick 500, .recv { sender := 23, x := 300, y := 380, info := some { cid := some 40, card := 2, shape := .circular }, op := none }]
+
+example : ∀ op ∈ refoundHistory, QuietFor 21 9 op := by
+  intro op h
+  simp only [refoundHistory, List.mem_cons, List.not_mem_nil, or_false] at h
+  rcases h with rfl | rfl | rfl | rfl | rfl | rfl | rfl | rfl | rfl | rfl | rfl | rfl | rfl <;> simp [QuietFor]
+
+example :
+    let s0 := run {} (St.init 1000000 128) passiveWitness
+    s0.state = .passive ∧ s0.leader = some 21 ∧ s0.joined = some 9 ∧ s0.last = some 1003050 ∧
+    (run {} s0 refoundHistory).state = .passive ∧ (run {} s0 refoundHistory).now - 1003050 ≥ timeClusterContinuity ∧
+    (update {} (run {} s0 refoundHistory)).state = .standalone := by decide
+
+/-- `passive_only_while_leader_heard`: a station that IS passive after an update (premise satisfiable) -/
+example : (update {} (run {} (St.init 1000000 128) (passiveWitness ++ [.tick 1999]))).state = .passive := by decide
+
+/-- `breakup_frees` (repaired variant) and `breakup_frees_partial` (code as is, reason ≠ CPM) on concrete runs -/
+example :
+    (run { cpmFrees := true } (St.init 1000000 128) (passiveWitness ++ [.recv cpmBreakupVam, .tick 50, .update])).state
+      = .standalone := by decide
+
+example :
+    let v : Vam := { cpmBreakupVam with op := some { join := none, leave := none, breakup := some 1 } }
+    let s := run {} (St.init 1000000 128) (passiveWitness ++ [.recv v, .tick 50, .update])
+    s.state = .standalone ∧ shouldTransmit s = true ∧ opContainer {} s = some { leave := some (9, leaveDisbandedByLeader) } := by
+  decide
+
+/-- two-station composition on concrete runs: the leader of `leaderWitness` (cluster 7, station 41) emits a cluster VAM;
+a station waiting for cluster 7 that receives exactly that VAM becomes its member -/
+example :
+    let a := run {} (St.init 1000000 128) leaderWitness
+    let b := run {} (St.init 1000000 128) [.initiateJoin 7, .tick 3000, .update, .tick 100]
+    a.state = .leader ∧ clusterId a = some 7 ∧ b.joinSub = .waiting ∧
+    (emitVam {} 41 0 0 a).map (fun v => ((recv {} b v).state, (recv {} b v).leader, (recv {} b v).joined)) =
+      some (.passive, some 41, some 7) := by decide
+
+/-- a passive station emits nothing, a leader in break-up emits the warning -/
+example :
+    emitVam {} 1 0 0 (run {} (St.init 1000000 128) passiveWitness) = none ∧
+    (emitVam {} 41 0 0 (run {} (St.init 1000000 128) (leaderWitness ++ [.breakup 1, .tick 1000]))).map (·.op) =
+      some (some { join := none, leave := none, breakup := some 1 }) := by decide
+
+/-- break-up warning over a history with receptions and commands in between -/
+example :
+    let s := run {} (St.init 1000000 128) (leaderWitness ++ [.breakup 1, .tick 1000,
+      .recv { sender := 32, x := 300, y := 0, info := none, op := some { join := some 7, leave := none, breakup := none } },
+      .breakup 2, .tick 1000, .update, .initiateJoin 5, .tick 999])
+    s.state = .leader ∧ opContainer {} s = some { breakup := some (1, 1) } ∧ infoContainer s = some (7, 5, 2, 128) := by decide
+
+/-- the notice of a cancelled join on its own (no membership before), and its end -/
+example :
+    let h := [Op.initiateJoin 5, .tick 1000, .cancelJoin, .tick 999, .update]
+    opContainer {} (run {} (St.init 1000000 128) h) = some { leave := some (5, leaveCancelledJoin) } ∧
+    opContainer {} (run {} (St.init 1000000 128) (h ++ [.tick 1, .update])) = none := by decide
+
+/-- join notification over a history with receptions, a refused creation and a failed-join confirmation in between -/
+example :
+    let s := run {} (St.init 1000000 128) (leaderWitness.dropLast ++ [.initiateJoin 9, .tick 1000, .tryCreate 0 0 [7],
+      .confirmJoinFailed, .update, .tick 1999])
+    s.joinSub = .notify ∧ opContainer {} s = some { join := some (9, 1) } := by decide
 
 end Props.C18
